@@ -6,7 +6,7 @@ Pipeline (DESIGN 4/C14):
                expression over its cells, construction routes fromgrid / nonuniform, squeeze)
        nd      2-d / 3-d partitions x (index, tuple / ellipsis / list index expressions, insert, append, squeeze, byaxis)
        uniform every (min, max, n, L, R) x every consistent argument subset x every nodes_on_bdry spelling
-     with the clauses of the property as invariants and C [= A outside the known cells.
+     with the clauses of the property as invariants and C [= A outside the one open cell (cell_sizes_vecs, one-node axis).
   2. Every (partition, query) state is exported with the layer-A answer and replayed on real
      RectPartition / RectGrid / IntervalProd objects and constructors under several concretisations.
   3. Every replayed call and the calls of a seeded random driver (1-4 d, up to 8 random dyadic nodes per axis,
@@ -148,7 +148,7 @@ def expand(case, rot, thorough):
     elif kind == 'uniform':
         c = q['c']
         ev = {'kind': 'uniform', 'part': [], 'cases': [{'args': q['args'], 'L': c['L'], 'R': c['R']}]}
-        out.append((ev, {'form': q['form'], 'api': 'uniform_partition', 'known_model_cell': q['known']}, q['ans']))
+        out.append((ev, {'form': q['form'], 'api': 'uniform_partition'}, q['ans']))
         if L.route_name(q['args']) == 'min,max,n':
             for api in ('uniform_partition_fromintv', 'uniform_grid_fromintv'):
                 out.append((dict(ev), {'form': q['form'], 'api': api}, q['ans']))
@@ -506,11 +506,7 @@ def run(ctx):
                 seen.add(key)
                 report(ctx, fam_counts, sig, {'stage': 'replay', 'event': clean(ev), 'conc': conc, 'errmsg': ev.get('_errmsg', ''),
                                     'expected_by_spec': ev.get('_expected'), 'clauses': [list(c) for c in cl]})
-    # layer C mirrors two open defects; if the real code agrees with layer A in those cells the model has drifted (not an alarm)
-    for ev, conc, cl, nontriv, ln in records:
-        if cl == [] and conc.get('known_model_cell'):
-            ctx.drift_note('PartitionImpl!CompletionFlags predicts the flat-(L,R) completion defect, the real uniform_partition agrees with PartSem')
-            break
+    # layer C mirrors one open defect; if the real code agrees with layer A in that cell the model has drifted (not an alarm)
     for ev, conc, cl, nontriv, ln in records:
         if cl == [] and ev['kind'] == 'derived' and any(L.axis_class(ax) == 'one-node' for ax in ev['part']):
             ctx.drift_note('PartitionImpl!ImplCellSizes predicts 0 on one-node axes, the real cell_sizes_vecs agrees with PartSem')
